@@ -20,7 +20,7 @@
 
    Outcomes are three-way (TotalBase.outcome): Ok | ParserError kind | Crash exn. *)
 From Coq Require Import String Ascii ZArith List Bool Lia.
-From BP Require Import Re TotalBase Schema.
+From BP Require Import Re ReLinear TotalBase Schema.
 From BPGen Require Import GenC09.
 Import ListNotations.
 Local Open Scope string_scope.
@@ -321,6 +321,13 @@ Definition render (l : lang) (t : ty) (consts : list Z) : outcome unit :=
     | LPy => py_render_defaults t
     | _ => Ok tt
     end).
+
+(* ---- regular expressions applied to user text: the name converters' (utils.py; linter.py has
+   none) and the token rules translated above.  None may contain a quantifier inside a quantifier
+   or an ambiguous iteration (ReLinear.is_flat): a backtracking matcher then works in polynomial
+   time, so no identifier / literal can make compilation hang in the regex engine. *)
+Definition all_regexes : list (string * (bool * bool) * re) := name_regexes ++ token_regexes.
+Definition regexes_not_flat : list string := non_flat all_regexes.
 
 (* ====================================================================================== *)
 (* 9. reading a source file                                                                *)
